@@ -63,6 +63,51 @@ func (o tmplObj) keys() []string {
 	return ks
 }
 
+// keys in ascending or descending order: the order in which the entries are handed to the library.
+// The library keeps variables and item fields in Go maps, whose iteration order depends on the
+// insertion order; every round is executed with both orders when a map has two or more entries.
+func (o tmplObj) ordered(rev bool) []string {
+	ks := o.keys()
+	if rev {
+		for i, j := 0, len(ks)-1; i < j; i, j = i+1, j-1 {
+			ks[i], ks[j] = ks[j], ks[i]
+		}
+	}
+	return ks
+}
+
+func tmplItemsMultiKey(items []tmplItem) bool {
+	for _, it := range items {
+		if it.K != "m" {
+			continue
+		}
+		if len(it.F) >= 2 {
+			return true
+		}
+		for _, raw := range it.F {
+			var fv tmplFieldVal
+			if json.Unmarshal(raw, &fv) == nil && fv.K == "l" && tmplItemsMultiKey(fv.L) {
+				return true
+			}
+		}
+	}
+	return false
+}
+
+// number of insertion orders worth executing: 2 if some map of the data has at least two entries
+func tmplOrders(d tmplData) int {
+	if len(d.Vars) >= 2 {
+		return 2
+	}
+	for _, raw := range d.Lists {
+		var items []tmplItem
+		if json.Unmarshal(raw, &items) == nil && tmplItemsMultiKey(items) {
+			return 2
+		}
+	}
+	return 1
+}
+
 type tmplItem struct {
 	K string  `json:"k"`
 	V string  `json:"v"`
@@ -267,15 +312,15 @@ func tmplTexts(t tmplTpl, round int) (base, child string) {
 
 // ---- data ---------------------------------------------------------------------
 
-func tmplItems(raw json.RawMessage, round int) ([]interface{}, error) {
+func tmplItems(raw json.RawMessage, round int, rev bool) ([]interface{}, error) {
 	var items []tmplItem
 	if err := json.Unmarshal(raw, &items); err != nil {
 		return nil, err
 	}
-	return tmplItemsOf(items, round)
+	return tmplItemsOf(items, round, rev)
 }
 
-func tmplItemsOf(items []tmplItem, round int) ([]interface{}, error) {
+func tmplItemsOf(items []tmplItem, round int, rev bool) ([]interface{}, error) {
 	out := make([]interface{}, 0, len(items))
 	for _, it := range items {
 		if it.K == "s" {
@@ -283,7 +328,7 @@ func tmplItemsOf(items []tmplItem, round int) ([]interface{}, error) {
 			continue
 		}
 		m := map[string]interface{}{}
-		for _, k := range it.F.keys() {
+		for _, k := range it.F.ordered(rev) {
 			var fv tmplFieldVal
 			if err := json.Unmarshal(it.F[k], &fv); err != nil {
 				return nil, err
@@ -291,7 +336,7 @@ func tmplItemsOf(items []tmplItem, round int) ([]interface{}, error) {
 			if fv.K == "v" {
 				m[k] = tmplVal(fv.V, round)
 			} else {
-				sub, err := tmplItemsOf(fv.L, round)
+				sub, err := tmplItemsOf(fv.L, round, rev)
 				if err != nil {
 					return nil, err
 				}
@@ -303,10 +348,11 @@ func tmplItemsOf(items []tmplItem, round int) ([]interface{}, error) {
 	return out, nil
 }
 
-func tmplBuildData(d tmplData, round int) (*document.TemplateData, error) {
+func tmplBuildData(d tmplData, round int, rev bool) (*document.TemplateData, error) {
 	td := document.NewTemplateData()
 	vals := map[string]interface{}{}
-	for _, k := range d.Vars.keys() {
+	order := d.Vars.ordered(rev)
+	for _, k := range order {
 		var tok string
 		if err := json.Unmarshal(d.Vars[k], &tok); err != nil {
 			return nil, err
@@ -316,8 +362,8 @@ func tmplBuildData(d tmplData, round int) (*document.TemplateData, error) {
 	// the documented ways of filling in variables
 	switch round % 4 {
 	case 0:
-		for k, v := range vals {
-			td.SetVariable(k, v)
+		for _, k := range order {
+			td.SetVariable(k, vals[k])
 		}
 	case 1:
 		td.SetVariables(vals)
@@ -329,11 +375,7 @@ func tmplBuildData(d tmplData, round int) (*document.TemplateData, error) {
 		td.Merge(other)
 	case 3:
 		// FromStruct lower-cases the exported field names: V1 -> v1
-		names := make([]string, 0, len(vals))
-		for k := range vals {
-			names = append(names, k)
-		}
-		sort.Strings(names)
+		names := order
 		fields := make([]reflect.StructField, 0, len(names))
 		for _, k := range names {
 			fields = append(fields, reflect.StructField{Name: strings.ToUpper(k[:1]) + k[1:], Type: reflect.TypeOf((*interface{})(nil)).Elem()})
@@ -354,7 +396,7 @@ func tmplBuildData(d tmplData, round int) (*document.TemplateData, error) {
 		td.SetCondition(k, b)
 	}
 	for _, k := range d.Lists.keys() {
-		items, err := tmplItems(d.Lists[k], round)
+		items, err := tmplItems(d.Lists[k], round, rev)
 		if err != nil {
 			return nil, err
 		}
@@ -388,7 +430,7 @@ func tmplBuildData(d tmplData, round int) (*document.TemplateData, error) {
 		}
 	}
 	for _, k := range d.Lists.keys() {
-		want, _ := tmplItems(d.Lists[k], round)
+		want, _ := tmplItems(d.Lists[k], round, rev)
 		if got, ok := td.GetList(k); !ok || !reflect.DeepEqual(got, want) {
 			return nil, fmt.Errorf("GetList(%s) does not return the stored list", k)
 		}
@@ -465,7 +507,7 @@ func tmplWant(exp []string, round int) string {
 }
 
 // one concretisation round: ret, template text, got, want
-func tmplRound(c *tmplCase, round int) (ret, text, got, want, pmsg string) {
+func tmplRound(c *tmplCase, round int, rev bool) (ret, text, got, want, pmsg string) {
 	base, child := tmplTexts(c.Tpl, round)
 	text = base
 	if c.Tpl.Ext {
@@ -473,7 +515,7 @@ func tmplRound(c *tmplCase, round int) (ret, text, got, want, pmsg string) {
 	}
 	want = tmplWant(c.Exp, round)
 	ret, pmsg = guard(func() string {
-		td, err := tmplBuildData(c.Data, round)
+		td, err := tmplBuildData(c.Data, round, rev)
 		if err != nil {
 			got = "!" + err.Error()
 			return "dataerr"
@@ -526,15 +568,18 @@ func runTmpl(c Case, emit Emitter) {
 	ev := Ev{"ev": "step", "case": c.ID, "tpl": raw.Tpl, "data": raw.Data, "exp": raw.Exp}
 	allOK := true
 	first := true
+	orders := tmplOrders(tc.Data)
 	for r := 0; r < tmplRounds; r++ {
-		ret, text, got, want, pmsg := tmplRound(&tc, r)
-		good := ret == "ok" && got == want
-		if first || (!good && allOK) {
-			ev["ret"], ev["round"], ev["text"], ev["got"], ev["want"], ev["pmsg"] = ret, r, text, got, want, pmsg
-			first = false
-		}
-		if !good {
-			allOK = false
+		for o := 0; o < orders; o++ {
+			ret, text, got, want, pmsg := tmplRound(&tc, r, o == 1)
+			good := ret == "ok" && got == want
+			if first || (!good && allOK) {
+				ev["ret"], ev["round"], ev["text"], ev["got"], ev["want"], ev["pmsg"] = ret, r, text, got, want, pmsg
+				first = false
+			}
+			if !good {
+				allOK = false
+			}
 		}
 	}
 	ev["ok"] = allOK
